@@ -426,6 +426,8 @@ def run(ctx):
     except Exception as ex:  # noqa
         stream_mod = None
         ctx.notes.append("part B module not importable: %r" % ex)
+        if not os.environ.get("C01_NO_STREAM"):
+            ctx.proof_broken("checks/c01_stream.py", "the sanitizer stream (part B) could not be loaded: %r" % ex, "no input was run")
     # 1 translate -----------------------------------------------------------------------------------------------
     try:
         text, info = grammar.translate(core.REPO, core.VERIF)
